@@ -179,7 +179,7 @@ func (g *G[P, F, S]) MSMCase(t *rapid.T) {
 }
 
 func TestMultiScalarMul(t *testing.T) {
-	vlib.Check(t, 1800, func(t *rapid.T) { drawGroup(t).MSMCase(t) })
+	vlib.Check(t, 2400, func(t *rapid.T) { drawGroup(t).MSMCase(t) })
 }
 
 // MSMEmpty calls every multi-scalar entry point with empty vectors and reports which ones panic.
